@@ -141,6 +141,8 @@ func runDVCase(c dvCase) *Violation {
 	var v *Violation
 	err := drive.Safe(func() error {
 		var states [2]segment.DocVisitState
+		// the caller keeps ONE field list for all its visits; the oracle reads the case's own copy
+		fieldsArg := append([]string(nil), c.Fields...)
 		for step, vis := range c.Script {
 			st := states[vis.St&1]
 			dvs := segs[vis.Seg].(segment.DocValueVisitable)
@@ -149,13 +151,17 @@ func runDVCase(c dvCase) *Violation {
 				st = nil
 			}
 			var err error
-			st, err = dvs.VisitDocValues(vis.Doc, c.Fields, func(field string, term []byte) {
+			st, err = dvs.VisitDocValues(vis.Doc, fieldsArg, func(field string, term []byte) {
 				got[field] = append(got[field], string(term))
 			}, st)
 			if err != nil {
 				return fmt.Errorf("step %d VisitDocValues(seg %d, doc %d): %w", step, vis.Seg, vis.Doc, err)
 			}
 			states[vis.St&1] = st
+			if !reflect.DeepEqual(fieldsArg, c.Fields) {
+				v = violation(prop, "dv/field-list-modified", "step %d (seg %d, doc %d): VisitDocValues changed the caller's field list from %q to %q", step, vis.Seg, vis.Doc, c.Fields, fieldsArg)
+				return nil
+			}
 			want := map[string][]string{}
 			for _, f := range c.Fields {
 				if terms := wants[vis.Seg].DV[f][vis.Doc]; len(terms) > 0 {
